@@ -69,6 +69,12 @@ func runC09(c *eng.Ctx) {
 						return true
 					}
 				}
+				// handed over through further locals (the result of a helper that decides the value)
+				for _, e := range valueSources(info, f.Decl.Body, as.Rhs[0], 4) {
+					if eng.IsField(info, e, filterResult) {
+						return true
+					}
+				}
 			}
 			return false
 		}
